@@ -268,3 +268,78 @@ def build(X):
     body = "\n".join([sql_mod_end, model, range_impl, ORACLE, rie.text, wb.text, pb.text, tiw.text, sa.text,
                       wd.text, FLATTEN_SHIM, fa.text])
     return PRELUDE + body + "\n} // verus!\nfn main() {}\n"
+
+
+# ----------------------------------------------------------------------------- thorough tier: witness sweep on the real compiler + SQLite
+SWEEP_DOC = ("`group g (sort x | window <frame> (derive {s = sum y}))` for rows / range / rolling / expanding frames with negative, zero, positive and open bounds, and no "
+             "window: compiled by the real prqlc for sql.sqlite and executed by SQLite on a table with three groups; every row's s must be the sum over the documented frame")
+
+_ROWS = [(1, 1, 10), (1, 2, 20), (1, 3, 30), (1, 5, 40), (2, 1, 5), (2, 2, 6), (3, 7, 7)]
+_FRAMES = [("rows", -1, 1), ("rows", None, 0), ("rows", 0, None), ("rows", -2, -1), ("rows", 1, 2), ("rows", 0, 0), ("rows", None, None),
+           ("range", -1, 1), ("range", None, 0), ("range", 0, None), ("range", -2, 0),
+           ("rolling", 2, None), ("rolling", 3, None), ("rolling", 1, None), ("expanding", None, None), ("none", None, None)]
+
+
+def _rng(a, b):
+    return "%s..%s" % ("" if a is None else a, "" if b is None else b)
+
+
+def _expected(kind, a, b):
+    out = []
+    for g in sorted({r[0] for r in _ROWS}):
+        grp = sorted([r for r in _ROWS if r[0] == g], key=lambda r: r[1])
+        for i, (_, x, y) in enumerate(grp):
+            if kind == "rolling":
+                lo, hi, by_pos = 1 - a, 0, True
+            elif kind == "expanding":
+                lo, hi, by_pos = None, 0, True
+            elif kind == "none":
+                lo, hi, by_pos = None, None, True
+            else:
+                lo, hi, by_pos = a, b, kind == "rows"
+            if by_pos:
+                sel = [r for j, r in enumerate(grp) if (lo is None or j >= i + lo) and (hi is None or j <= i + hi)]
+            else:
+                sel = [r for r in grp if (lo is None or r[1] >= x + lo) and (hi is None or r[1] <= x + hi)]
+            out.append((g, x, sum(r[2] for r in sel) if sel else None))
+    return out
+
+
+def _try(kind, a, b):
+    import replaylib
+    if kind in ("rows", "range"):
+        w = "window %s:%s" % (kind, _rng(a, b))
+    elif kind == "rolling":
+        w = "window rolling:%d" % a
+    elif kind == "expanding":
+        w = "window expanding:true"
+    else:
+        w = None
+    inner = "sort x | %s (derive {s = sum y})" % w if w else "derive {s = sum y}"
+    prql = "from t\ngroup g (%s)\nselect {g, x, s}\nsort {g, x}\n" % inner
+    rec = {"obligation": "window_frame.WF1a" if kind != "range" else "window_frame.WF2a", "input": prql, "replay_kind": "window", "kind": kind, "a": a, "b": b}
+    ok, sql = replaylib.compile_prql(prql, "sql.sqlite")
+    if not ok:
+        rec.update(failing="PANIC" in sql, expected="compiles", observed=sql[:300])
+        return rec
+    setup = "create table t(g integer, x integer, y integer);" + "".join("insert into t values(%d,%d,%d);" % r for r in _ROWS)
+    ok2, rows = replaylib.sqlite_rows(setup, sql)
+    exp = _expected(kind, a, b)
+    got = [tuple(r) for r in rows] if ok2 else rows
+    rec.update(failing=(not ok2) or got != exp, expected=repr(exp), observed=repr(got)[:400], sql=sql)
+    return rec
+
+
+def sweep():
+    return [_try(*f) for f in _FRAMES]
+
+
+def replay(failure):
+    for r in sweep():
+        if r["failing"]:
+            return r
+    return {"failing": False}
+
+
+def rerun(doc):
+    return _try(doc["kind"], doc["a"], doc["b"])
